@@ -1583,6 +1583,18 @@ class Interp:
         if k == "phi":
             return phi(*[self.method(x, attr, args, kwargs, env, fi, recv_node)
                          for x in recv[1:]])
+        # constant folding of pure str/bytes methods on literal receivers
+        if k == "const" and isinstance(recv[1], (str, bytes)) \
+                and attr in ("replace", "strip", "lower", "upper", "startswith", "endswith",
+                             "split", "decode", "encode", "rstrip", "lstrip", "count") \
+                and all(x[0] == "const" for x in a) and not kwargs:
+            try:
+                r = getattr(recv[1], attr)(*[x[1] for x in a])
+                if isinstance(r, list):
+                    return ("list",) + tuple(const(x) for x in r)
+                return const(r)
+            except Exception:  # noqa: BLE001
+                pass
         if attr == "split":
             sep = a[0] if a else NONE
             mx = a[1] if len(a) > 1 else kwargs.get("maxsplit", NONE)
